@@ -114,6 +114,27 @@ PROPS["C10"] = {
     "assumptions": ["field / name lengths < 2^32 and fewer than 65535 fields (wire-format limits, hypotheses of the theorem)"],
 }
 
+PROPS["C11"] = {
+    "modules": ["SlogModel.Props.C11"],
+    "components": [("pack", 20000, 200000)],
+    "rule": "one case = one real chunk maker (Forward / PackedForward / CompressedPackedForward via Config.NewChunkMaker with "
+            "lowered limits, Datadog via the verif constructor) driven by 1-14 writes with sizes around the byte limit, record "
+            "limits 0/1/3/1000, flushes after any write; every emitted chunk is decoded with the library (payload after gunzip, "
+            "count, exact envelope bytes, id sequence re-derived from the clock readings read back from the real ids); distinct "
+            "by ops; non-trivial = at least one chunk",
+    "level_text": "Theorems C11_concat / C11_concat_flushed (every interleaving of writes and flushes: chunks in emission order "
+                  "reproduce the written sequence exactly), C11_count, C11_limits (record limit always, byte limit unless a "
+                  "single record), C11_indices, C11_ids_increasing (non-decreasing clock => strictly increasing, unique ids), "
+                  "C11_id_format (fixed width, injective), C11_envelope_packed / C11_envelope_forward (request decodes to "
+                  "[tag, entries|bin, {size, chunk, compressed?}] by the MessagePack decoder spec), C11_datadog_framing, proved in "
+                  "Lean 4 on a model of messagepacker.go / chunk.go / chunkencoder.go / chunkidgen.go; tied to the code by "
+                  "differential runs with byte-exact envelopes and six regenerated source facts.",
+    "level_note": "Trusted: Lean kernel + 3 standard axioms; gzip (payload compared after gunzip, gunzip . gzip = id assumed), the "
+                  "vmihailenco encoder for the envelope (modelled as libStr/libBin/libArrHdr/libUint, differential-checked byte for "
+                  "byte), a non-decreasing wall clock (hypothesis of C11_ids_increasing).",
+    "assumptions": ["wall clock non-decreasing across chunk creations", "gunzip(gzip(x)) = x"],
+}
+
 NOT_APPLICABLE = {k: "check not built yet in this round (planned in DESIGN.md section 6); no claim is made" for k in
                   ["C%02d" % i for i in range(1, 20)]}
 
